@@ -1042,6 +1042,640 @@ theorem mismatch_step {cfg : Cfg} {s : State} (h : Inv cfg s) (e : Ev) (c : Nat)
   | subscribe => simp only [step]; (repeat' split) <;> simp_all
   | unsubscribe => simpa [step] using hne
 
+/-! ### C06: the failure path -/
+
+theorem drain_mem_of_sbd {l : List FailStep} (h : shutBeforeDrain l = true) : FailStep.drainPending ∈ l := by
+  induction l with
+  | nil => simp [shutBeforeDrain] at h
+  | cons a r ih =>
+    cases a <;> simp only [shutBeforeDrain] at h
+    · exact List.mem_cons_of_mem _ (by simpa using h)
+    · exact List.mem_cons_of_mem _ (ih h)
+    · cases h
+    · exact List.mem_cons_of_mem _ (ih h)
+
+/-- The reader has executed its last `drainPending` (or has finished): nothing drains the map any more. -/
+def PostDrain (s : State) : Prop :=
+  match s.reader with
+  | .failing todo _ _ => FailStep.drainPending ∉ todo
+  | .finished _ => True
+  | _ => False
+
+/-- The connection failure has been noticed by the reader. -/
+def Failed (s : State) : Prop :=
+  match s.reader with
+  | .failing _ _ _ => True
+  | .finished _ => True
+  | _ => False
+
+/-- Invariant of the failure path (needs shutdown-before-drain and register-before-write). -/
+structure DInv (s : State) : Prop where
+  shut : ∀ todo w g, s.reader = .failing todo w g → s.writerShut = true ∨ shutBeforeDrain todo = true
+  fin : ∀ g, s.reader = .finished g → s.writerShut = true
+  unwritten : PostDrain s → ∀ e ∈ s.pending, (s.calls e.2).wrote = false
+
+theorem dinv_init : DInv State.init := by
+  constructor <;> simp [State.init, PostDrain]
+
+theorem postDrain_shut {s : State} (h : DInv s) (hp : PostDrain s) : s.writerShut = true := by
+  unfold PostDrain at hp
+  split at hp
+  · rename_i todo w g hr
+    rcases h.shut todo w g hr with h1 | h1
+    · exact h1
+    · exact absurd (drain_mem_of_sbd h1) hp
+  · rename_i g hr; exact h.fin g hr
+  · exact absurd hp id
+
+theorem dinv_step {cfg : Cfg} (hsbd : shutBeforeDrain cfg.failOrder = true) (hrbw : cfg.regBeforeWrite = true)
+    {s : State} (hI : Inv cfg s) (h : DInv s) (e : Ev) : DInv (step cfg s e) := by
+  -- events that leave reader, writerShut and pending alone and do not set `wrote`
+  have keep : ∀ s' : State, s'.reader = s.reader → s'.writerShut = s.writerShut → s'.pending = s.pending →
+      (∀ c, (s'.calls c).wrote = true → (s.calls c).wrote = true) → DInv s' := by
+    intro s' h1 h2 h3 h4
+    constructor
+    · rw [h1, h2]; exact h.shut
+    · rw [h1, h2]; exact h.fin
+    · intro hp e he
+      have hp' : PostDrain s := by simpa [PostDrain, h1] using hp
+      have := h.unwritten hp' e (by rw [← h3]; exact he)
+      cases hw : (s'.calls e.2).wrote
+      · rfl
+      · rw [h4 e.2 hw] at this; cases this
+  cases e with
+  | alloc c =>
+    simp only [step]; split
+    · refine keep _ rfl rfl rfl ?_
+      intro d; simp only [setCall_calls]; split <;> simp
+    · exact h
+  | skip => exact keep _ rfl rfl rfl (fun _ hw => hw)
+  | register c =>
+    simp only [step]; split
+    · rename_i hc
+      obtain ⟨hpc, hreg, hwr⟩ := canRegister_iff.1 hc
+      split
+      · refine keep _ rfl rfl rfl ?_
+        intro d; simp only [setCall_calls]; split
+        · rename_i hd; subst hd; simp
+        · exact id
+      · constructor
+        · simpa using h.shut
+        · simpa using h.fin
+        · intro hp e he
+          have hp' : PostDrain s := by simpa [PostDrain] using hp
+          simp only [setCall_pending, List.mem_cons] at he
+          simp only [setCall_calls]
+          rcases he with he | he
+          · subst he; simp [hwr, hrbw]
+          · have := h.unwritten hp' e (mem_erase.1 he).1
+            split
+            · simp [hwr, hrbw]
+            · exact this
+    · exact h
+  | write c =>
+    simp only [step]; split
+    · split
+      · refine keep _ rfl rfl rfl ?_
+        intro d; simp only [setCall_calls]; split
+        · rename_i hd; subst hd; simp
+        · exact id
+      · rename_i hshut
+        constructor
+        · simpa using h.shut
+        · simpa using h.fin
+        · intro hp
+          have hp' : PostDrain s := by simpa [PostDrain] using hp
+          exact absurd (postDrain_shut h hp') hshut
+    · exact h
+  | writeFail c =>
+    simp only [step]; split
+    · refine keep _ rfl rfl rfl ?_
+      intro d; simp only [setCall_calls]; split
+      · rename_i hd; subst hd; simp
+      · exact id
+    · exact h
+  | recv c =>
+    simp only [step]; split
+    · split
+      · refine keep _ rfl rfl rfl ?_
+        intro d; simp only [setCall_calls]; split
+        · rename_i hd; subst hd; simp
+        · exact id
+      · exact h
+    · exact h
+  | timeout c =>
+    simp only [step]; split
+    · refine keep _ rfl rfl rfl ?_
+      intro d; simp only [setCall_calls]; split
+      · rename_i hd; subst hd; simp
+      · exact id
+    · exact h
+  | cancel c =>
+    simp only [step]; split
+    · refine keep _ rfl rfl rfl ?_
+      intro d; simp only [setCall_calls]; split
+      · rename_i hd; subst hd; simp
+      · exact id
+    · exact h
+  | cleanup c =>
+    simp only [step]; split
+    · constructor
+      · simpa using h.shut
+      · simpa using h.fin
+      · intro hp e he
+        have hp' : PostDrain s := by simpa [PostDrain] using hp
+        have hmem : e ∈ s.pending := by
+          simp only [setCall_pending] at he
+          split at he
+          · exact (mem_erase.1 he).1
+          · exact he
+        have := h.unwritten hp' e hmem
+        simp only [setCall_calls]; split
+        · rename_i hd; rw [hd] at this; simpa using this
+        · exact this
+    · exact h
+  | rmatch f =>
+    simp only [step]; split
+    · rename_i hr
+      split
+      · split
+        · constructor
+          · intro todo w g hx; simp at hx
+          · intro g hx; simp at hx
+          · intro hp; simp [PostDrain] at hp
+        · exact h
+      · split
+        · constructor
+          · intro todo w g hx; simp at hx
+          · intro g hx; simp at hx
+          · intro hp; simp [PostDrain] at hp
+        · exact h
+    · exact h
+  | deliver =>
+    simp only [step]; split
+    · constructor
+      · intro todo w g hx; simp [push] at hx
+      · intro g hx; simp [push] at hx
+      · intro hp; simp [PostDrain, push] at hp
+    · constructor
+      · intro todo w g hx; simp at hx
+      · intro g hx; simp at hx
+      · intro hp; simp [PostDrain] at hp
+    · exact h
+  | readErr =>
+    simp only [step]; split
+    · constructor
+      · intro todo w g hx
+        simp only [Reader.failing.injEq] at hx
+        right; rw [← hx.1]; exact hsbd
+      · intro g hx; simp at hx
+      · intro hp
+        simp only [PostDrain] at hp
+        exact absurd (drain_mem_of_sbd hsbd) hp
+    · exact h
+  | failStep =>
+    simp only [step]; split
+    · rename_i r w g hr
+      constructor
+      · intro todo w' g' _; left; rfl
+      · intro g' hx; simp at hx
+      · intro hp e he
+        have hp' : PostDrain s := by
+          simp only [PostDrain, hr]; simp only [PostDrain] at hp; simpa using hp
+        exact h.unwritten hp' e he
+    · rename_i r w g hr
+      constructor
+      · intro todo w' g' hx
+        simp only [Reader.failing.injEq] at hx
+        rcases h.shut _ _ _ hr with h1 | h1
+        · left; exact h1
+        · right; rw [← hx.1]; simpa [shutBeforeDrain] using h1
+      · intro g' hx; simp at hx
+      · intro hp e he
+        have hp' : PostDrain s := by
+          simp only [PostDrain, hr]; simp only [PostDrain] at hp; simpa using hp
+        exact h.unwritten hp' e he
+    · rename_i r w g hr
+      have hshut : s.writerShut = true := by
+        rcases h.shut _ _ _ hr with h1 | h1
+        · exact h1
+        · simp [shutBeforeDrain] at h1
+      constructor
+      · intro todo w' g' _; left; exact hshut
+      · intro g' hx; simp at hx
+      · intro _ e he; simp at he
+    · rename_i r g hr
+      constructor
+      · intro todo w' g' hx
+        simp only [Reader.failing.injEq] at hx
+        rcases h.shut _ _ _ hr with h1 | h1
+        · left; exact h1
+        · right; rw [← hx.1]; simpa [shutBeforeDrain] using h1
+      · intro g' hx; simp at hx
+      · intro hp e he
+        have hp' : PostDrain s := by
+          simp only [PostDrain, hr]; simp only [PostDrain] at hp; simpa using hp
+        exact h.unwritten hp' e he
+    · rename_i r e w g hr
+      constructor
+      · intro todo w' g' hx
+        simp only [push, setCall_reader, Reader.failing.injEq] at hx
+        simp only [push, setCall_writerShut]
+        rw [← hx.1]; exact h.shut _ _ _ hr
+      · intro g' hx; simp [push] at hx
+      · intro hp x hx
+        have hp' : PostDrain s := by
+          simp only [PostDrain, hr]; simpa [PostDrain, push] using hp
+        have := h.unwritten hp' x (by simpa [push] using hx)
+        simp only [push, setCall_calls]; split
+        · rename_i hd; rw [hd] at this; simpa using this
+        · exact this
+    · rename_i e w g hr
+      constructor
+      · intro todo w' g' hx
+        simp only [push, setCall_reader, Reader.failing.injEq] at hx
+        simp only [push, setCall_writerShut]
+        rw [← hx.1]; exact h.shut _ _ _ hr
+      · intro g' hx; simp [push] at hx
+      · intro hp x hx
+        have hp' : PostDrain s := by simp [PostDrain, hr]
+        have := h.unwritten hp' x (by simpa [push] using hx)
+        simp only [push, setCall_calls]; split
+        · rename_i hd; rw [hd] at this; simpa using this
+        · exact this
+    · rename_i g hr
+      have hshut : s.writerShut = true := by
+        rcases h.shut _ _ _ hr with h1 | h1
+        · exact h1
+        · simp [shutBeforeDrain] at h1
+      constructor
+      · intro todo w' g' hx; simp at hx
+      · intro _ _; exact hshut
+      · intro _ e he
+        exact h.unwritten (by simp [PostDrain, hr]) e he
+    · exact h
+  | subscribe =>
+    simp only [step]; split
+    · exact keep _ rfl rfl rfl (fun _ hw => hw)
+    · exact h
+  | unsubscribe => exact keep _ rfl rfl rfl (fun _ hw => hw)
+
+theorem Reachable.dinv {cfg : Cfg} (hsbd : shutBeforeDrain cfg.failOrder = true) (hrbw : cfg.regBeforeWrite = true)
+    {s : State} (hs : Reachable cfg s) : DInv s :=
+  Reachable.induction (P := DInv) dinv_init (fun _ e hr ih => dinv_step hsbd hrbw hr.inv.1 ih e) hs
+
+/-- Once failed, always failed; once past the drain, always past the drain. -/
+theorem failed_step (cfg : Cfg) (s : State) (e : Ev) (h : Failed s) : Failed (step cfg s e) := by
+  unfold Failed at h
+  cases e <;> simp only [step] <;> (repeat' split) <;> simp_all [Failed, push]
+
+theorem postDrain_step (cfg : Cfg) (s : State) (e : Ev) (h : PostDrain s) : PostDrain (step cfg s e) := by
+  unfold PostDrain at h
+  cases e <;> simp only [step] <;> (repeat' split) <;> simp_all [PostDrain, push]
+
+/-- After the failure was noticed no caller's channel ever receives a response again. -/
+theorem no_resp_after_failure (cfg : Cfg) (s : State) (e : Ev) (c : Nat) (hf : Failed s)
+    (h : ∀ f, Msg.resp f ∉ (s.calls c).chan) : ∀ f, Msg.resp f ∉ ((step cfg s e).calls c).chan := by
+  unfold Failed at hf
+  cases e <;> simp only [step] <;> (repeat' split) <;>
+    simp_all [setCall, push] <;> (try split) <;> simp_all
+
+/-- A call can only return a response that sits at the head of its own channel. -/
+theorem no_resp_return_step {cfg : Cfg} {s : State} (e : Ev) (c : Nat)
+    (hnr : ∀ f, Msg.resp f ∉ (s.calls c).chan) (hpc : ∀ f, (s.calls c).pc ≠ .returned (.resp f)) :
+    ∀ f, ((step cfg s e).calls c).pc ≠ .returned (.resp f) := by
+  intro f
+  have hne := hpc f
+  have hch : ∀ m l, (s.calls c).chan = m :: l → outcomeOf (s.calls c) m ≠ .resp f := by
+    intro m l hm
+    cases m with
+    | resp f' => exact absurd (by rw [hm]; exact List.mem_cons_self) (hnr f')
+    | connErr => simp [outcomeOf]
+    | closed => simp [outcomeOf]
+  cases e with
+  | recv d =>
+    simp only [step]
+    split
+    · split
+      · rename_i m l hm
+        simp only [setCall_calls]
+        split
+        · rename_i hcd; subst hcd; simpa using hch m l hm
+        · exact hne
+      · exact hne
+    · exact hne
+  | cleanup d =>
+    simp only [step]
+    split
+    · rename_i o _
+      simp only [setCall_calls]
+      split
+      · cases o <;> simp [Abandon.outcome]
+      · exact hne
+    · exact hne
+  | alloc d => simp only [step]; (repeat' split) <;> simp_all [setCall] <;> (try split) <;> simp_all
+  | skip => simpa [step] using hne
+  | register d => simp only [step]; (repeat' split) <;> simp_all [setCall] <;> (try split) <;> simp_all
+  | write d => simp only [step]; (repeat' split) <;> simp_all [setCall] <;> (try split) <;> simp_all
+  | writeFail d => simp only [step]; (repeat' split) <;> simp_all [setCall] <;> (try split) <;> simp_all
+  | timeout d => simp only [step]; (repeat' split) <;> simp_all [setCall] <;> (try split) <;> simp_all
+  | cancel d => simp only [step]; (repeat' split) <;> simp_all [setCall] <;> (try split) <;> simp_all
+  | rmatch f => simp only [step]; (repeat' split) <;> simp_all
+  | deliver => simp only [step]; (repeat' split) <;> simp_all [setCall, push] <;> (try split) <;> simp_all
+  | readErr => simp only [step]; (repeat' split) <;> simp_all
+  | failStep => simp only [step]; (repeat' split) <;> simp_all [setCall, push] <;> (try split) <;> simp_all
+  | subscribe => simp only [step]; (repeat' split) <;> simp_all
+  | unsubscribe => simpa [step] using hne
+
+/-! ### residue -/
+
+def AllRemove (cfg : Cfg) : Prop :=
+  cfg.timeoutRemoves = true ∧ cfg.cancelRemoves = true ∧ cfg.writeErrRemoves = true
+
+/-- A call that has returned has no entry in the pending map. -/
+def NoResidue (s : State) : Prop :=
+  ∀ c o, (s.calls c).pc = .returned o → (s.calls c).id ∉ ids s.pending
+
+theorem removes_all {cfg : Cfg} (h : AllRemove cfg) (a : Abandon) : removes cfg a = true := by
+  cases a <;> simp [removes, h.1, h.2.1, h.2.2]
+
+theorem noResidue_step {cfg : Cfg} (hr : AllRemove cfg) {s : State} (hI : Inv cfg s) (h : NoResidue s) (e : Ev) :
+    NoResidue (step cfg s e) := by
+  -- an id in the pending map belongs to a registered caller
+  have owner : ∀ c, (s.calls c).pc ≠ .idle → (s.calls c).id ∈ ids s.pending → (s.calls c).reg = true := by
+    intro c hc hm
+    obtain ⟨d, hd⟩ := mem_ids.1 hm
+    have ho := hI.ownP _ hd
+    have := hI.inj d c ho.1 hc ho.2.1
+    subst this; exact ho.2.2
+  intro c o
+  cases e with
+  | alloc d =>
+    simp only [step]; split
+    · simp only [setCall_calls, setCall_pending]; split
+      · simp
+      · exact h c o
+    · exact h c o
+  | skip => exact h c o
+  | register d =>
+    simp only [step]; split
+    · rename_i hc
+      obtain ⟨hpc, hreg, _⟩ := canRegister_iff.1 hc
+      split
+      · simp only [setCall_calls, setCall_pending]; split
+        · rename_i hd; subst hd
+          intro _ hm
+          have := owner c (by rw [hpc]; simp) hm
+          rw [hreg] at this; cases this
+        · exact h c o
+      · simp only [setCall_calls, setCall_pending]; split
+        · rename_i hd; subst hd; simp [hpc]
+        · rename_i hd
+          intro hret
+          simp only [ids, List.map_cons, List.mem_cons, not_or]
+          refine ⟨fun heq => hd (hI.inj c d (by rw [hret]; simp) (by rw [hpc]; simp) heq), fun hm => ?_⟩
+          exact h c o hret (mem_ids_erase.1 (by simpa [ids] using hm)).1
+    · exact h c o
+  | write d =>
+    simp only [step]; split
+    · split <;> (simp only [setCall_calls, setCall_pending]; split)
+      · simp
+      · exact h c o
+      · rename_i hc _ hd; subst hd
+        have := (canWrite_iff.1 hc).1
+        simp [this]
+      · exact h c o
+    · exact h c o
+  | writeFail d =>
+    simp only [step]; split
+    · simp only [setCall_calls, setCall_pending]; split
+      · simp
+      · exact h c o
+    · exact h c o
+  | recv d =>
+    simp only [step]; split
+    · split
+      · rename_i m l hm
+        simp only [setCall_calls, setCall_pending]; split
+        · rename_i hd; subst hd
+          intro _
+          exact (hI.chanExcl c (by rw [hm]; simp)).1
+        · exact h c o
+      · exact h c o
+    · exact h c o
+  | timeout d =>
+    simp only [step]; split
+    · simp only [setCall_calls, setCall_pending]; split
+      · simp
+      · exact h c o
+    · exact h c o
+  | cancel d =>
+    simp only [step]; split
+    · simp only [setCall_calls, setCall_pending]; split
+      · simp
+      · exact h c o
+    · exact h c o
+  | cleanup d =>
+    simp only [step]; split
+    · rename_i a hpc
+      simp only [setCall_calls, setCall_pending, removes_all hr, Bool.true_and]; split
+      · rename_i hd; subst hd
+        intro _
+        split
+        · exact not_mem_ids_erase_self _ _
+        · rename_i hreg
+          intro hm
+          exact hreg (owner c (by rw [hpc]; simp) hm)
+      · intro hret
+        split
+        · exact fun hm => h c o hret (mem_ids_erase.1 hm).1
+        · exact h c o hret
+    · exact h c o
+  | rmatch f =>
+    simp only [step]; (repeat' split) <;> first | exact h c o | exact fun hret hm => h c o hret (mem_ids_erase.1 hm).1
+  | deliver =>
+    simp only [step]; split
+    · simp only [push, setCall_calls, setCall_pending]; split
+      · simpa using h _ o
+      · exact h c o
+    · exact h c o
+    · exact h c o
+  | readErr => simp only [step]; split <;> exact h c o
+  | failStep =>
+    simp only [step]; split
+    · exact h c o
+    · exact h c o
+    · intro _; simp [ids]
+    · exact h c o
+    · simp only [push, setCall_calls, setCall_pending]; split
+      · simpa using h _ o
+      · exact h c o
+    · simp only [push, setCall_calls, setCall_pending]; split
+      · simpa using h _ o
+      · exact h c o
+    · exact h c o
+    · exact h c o
+  | subscribe => simp only [step]; split <;> exact h c o
+  | unsubscribe => exact h c o
+
+theorem Reachable.noResidue {cfg : Cfg} (hr : AllRemove cfg) {s : State} (hs : Reachable cfg s) : NoResidue s :=
+  Reachable.induction (P := NoResidue) (by intro c o; simp [State.init])
+    (fun _ e hreach ih => noResidue_step hr hreach.inv.1 ih e) hs
+
+/-! ### subscriber -/
+
+/-- Subscriptions made before the failure was noticed (generation `< g0`) are closed once
+`takeNotify` ran. -/
+structure SInv (s : State) : Prop where
+  lt : ∀ g, s.sub = some g → g < s.gen
+  failing : ∀ todo w g0, s.reader = .failing todo w g0 →
+    g0 ≤ s.gen ∧ (FailStep.takeNotify ∈ todo ∨ ∀ g, s.sub = some g → g0 ≤ g)
+  fin : ∀ g0, s.reader = .finished g0 → g0 ≤ s.gen ∧ ∀ g, s.sub = some g → g0 ≤ g
+
+theorem sinv_init : SInv State.init := by
+  constructor <;> simp [State.init]
+
+theorem sinv_step {cfg : Cfg} (ht : FailStep.takeNotify ∈ cfg.failOrder) {s : State} (h : SInv s) (e : Ev) :
+    SInv (step cfg s e) := by
+  have keep : ∀ s' : State, s'.reader = s.reader → s'.sub = s.sub → s'.gen = s.gen → SInv s' := by
+    intro s' h1 h2 h3
+    constructor
+    · rw [h2, h3]; exact h.lt
+    · rw [h1, h2, h3]; exact h.failing
+    · rw [h1, h2, h3]; exact h.fin
+  cases e with
+  | alloc c => simp only [step]; split <;> first | exact keep _ rfl rfl rfl | exact h
+  | skip => exact keep _ rfl rfl rfl
+  | register c => simp only [step]; (repeat' split) <;> first | exact keep _ rfl rfl rfl | exact h
+  | write c => simp only [step]; (repeat' split) <;> first | exact keep _ rfl rfl rfl | exact h
+  | writeFail c => simp only [step]; (repeat' split) <;> first | exact keep _ rfl rfl rfl | exact h
+  | recv c => simp only [step]; (repeat' split) <;> first | exact keep _ rfl rfl rfl | exact h
+  | timeout c => simp only [step]; (repeat' split) <;> first | exact keep _ rfl rfl rfl | exact h
+  | cancel c => simp only [step]; (repeat' split) <;> first | exact keep _ rfl rfl rfl | exact h
+  | cleanup c => simp only [step]; (repeat' split) <;> first | exact keep _ rfl rfl rfl | exact h
+  | rmatch f =>
+    simp only [step]; split
+    · rename_i hr
+      (repeat' split) <;> first
+        | exact h
+        | (constructor
+           · exact h.lt
+           · intro todo w g0 hx; simp at hx
+           · intro g0 hx; simp at hx)
+    · exact h
+  | deliver =>
+    simp only [step]; split
+    · constructor
+      · simpa [push] using h.lt
+      · intro todo w g0 hx; simp [push] at hx
+      · intro g0 hx; simp [push] at hx
+    · constructor
+      · exact h.lt
+      · intro todo w g0 hx; simp at hx
+      · intro g0 hx; simp at hx
+    · exact h
+  | readErr =>
+    simp only [step]; split
+    · constructor
+      · exact h.lt
+      · intro todo w g0 hx
+        simp only [Reader.failing.injEq] at hx
+        rw [← hx.1, ← hx.2.2]
+        exact ⟨Nat.le_refl _, Or.inl ht⟩
+      · intro g0 hx; simp at hx
+    · exact h
+  | failStep =>
+    simp only [step]; split
+    · rename_i r w g hr
+      have := h.failing _ _ _ hr
+      constructor
+      · exact h.lt
+      · intro todo w' g0 hx
+        simp only [Reader.failing.injEq] at hx
+        rw [← hx.1, ← hx.2.2]
+        exact ⟨this.1, this.2.imp (fun hm => by simpa using hm) id⟩
+      · intro g0 hx; simp at hx
+    · rename_i r w g hr
+      have := h.failing _ _ _ hr
+      constructor
+      · intro g hx; simp at hx
+      · intro todo w' g0 hx
+        simp only [Reader.failing.injEq] at hx
+        rw [← hx.2.2]
+        exact ⟨this.1, Or.inr (by intro g hx; simp at hx)⟩
+      · intro g0 hx; simp at hx
+    · rename_i r w g hr
+      have := h.failing _ _ _ hr
+      constructor
+      · exact h.lt
+      · intro todo w' g0 hx
+        simp only [Reader.failing.injEq] at hx
+        rw [← hx.1, ← hx.2.2]
+        exact ⟨this.1, this.2.imp (fun hm => by simpa using hm) id⟩
+      · intro g0 hx; simp at hx
+    · rename_i r g hr
+      have := h.failing _ _ _ hr
+      constructor
+      · exact h.lt
+      · intro todo w' g0 hx
+        simp only [Reader.failing.injEq] at hx
+        rw [← hx.1, ← hx.2.2]
+        exact ⟨this.1, this.2.imp (fun hm => by simpa using hm) id⟩
+      · intro g0 hx; simp at hx
+    · rename_i r e w g hr
+      have := h.failing _ _ _ hr
+      constructor
+      · simpa [push] using h.lt
+      · intro todo w' g0 hx
+        simp only [push, setCall_reader, Reader.failing.injEq] at hx
+        simp only [push, setCall_gen, setCall_sub]
+        rw [← hx.1, ← hx.2.2]; exact this
+      · intro g0 hx; simp [push] at hx
+    · rename_i e w g hr
+      have := h.failing _ _ _ hr
+      constructor
+      · simpa [push] using h.lt
+      · intro todo w' g0 hx
+        simp only [push, setCall_reader, Reader.failing.injEq] at hx
+        simp only [push, setCall_gen, setCall_sub]
+        rw [← hx.1, ← hx.2.2]; exact this
+      · intro g0 hx; simp [push] at hx
+    · rename_i g hr
+      have := h.failing _ _ _ hr
+      constructor
+      · exact h.lt
+      · intro todo w' g0 hx; simp at hx
+      · intro g0 hx
+        simp only [Reader.finished.injEq] at hx
+        rw [← hx]
+        exact ⟨this.1, this.2.resolve_left (by simp)⟩
+    · exact h
+  | subscribe =>
+    simp only [step]; split
+    · constructor
+      · intro g hx; simp only [Option.some.injEq] at hx; subst hx; simp
+      · intro todo w g0 hx
+        have := h.failing _ _ _ hx
+        refine ⟨by simp only; omega, this.2.imp id (fun _ g hg => ?_)⟩
+        simp only [Option.some.injEq] at hg; omega
+      · intro g0 hx
+        have := h.fin _ hx
+        refine ⟨by simp only; omega, fun g hg => ?_⟩
+        simp only [Option.some.injEq] at hg; omega
+    · exact h
+  | unsubscribe =>
+    constructor
+    · intro g hx; simp [step] at hx
+    · intro todo w g0 hx
+      have := h.failing _ _ _ (by simpa [step] using hx)
+      exact ⟨by simpa [step] using this.1, Or.inr (by intro g hg; simp [step] at hg)⟩
+    · intro g0 hx
+      have := h.fin _ (by simpa [step] using hx)
+      exact ⟨by simpa [step] using this.1, by intro g hg; simp [step] at hg⟩
+
+theorem Reachable.sinv {cfg : Cfg} (ht : FailStep.takeNotify ∈ cfg.failOrder) {s : State} (hs : Reachable cfg s) : SInv s :=
+  Reachable.induction (P := SInv) sinv_init (fun _ e _ ih => sinv_step ht ih e) hs
+
 /-! ### batch -/
 
 theorem mem_enumFrom {α} {l : List α} {n i : Nat} {a : α} (h : (i, a) ∈ enumFrom n l) :
